@@ -20,7 +20,7 @@ ConflictAt(a, b) ==
 ConflictFreeIdx(S) == \A i, j \in S : ~ConflictAt(PoolToks[i], PoolToks[j])
 
 Tables ==
-  {S \in (UNION {kSubset(k, ValidIdx \cap (1..GenEnumN)) : k \in 1..GenMaxTab}) \cup GenExtraTables :
+  {S \in (SubsetsUpTo(ValidIdx \cap (1..GenEnumN), GenMaxTab) \ {{}}) \cup GenExtraTables :
       S \subseteq ValidIdx /\ ConflictFreeIdx(S)}
 
 VARIABLES tab, done
